@@ -17,7 +17,8 @@ Request = blank separated tokens `<k>:<payload>`:
 * `o:<file hex>` files in the order they are opened (file numbers of `AddLineInfo`)
 
 mode `c19`  (generated programs): spec join listing/MAP/share/symbols ↔ code file, model ↔ real text
-mode `c19c` (golden corpus): spec join without generator knowledge
+mode `c19c` (golden corpus): spec join without generator knowledge (word-listed lines: `corpusWide`)
+mode `c19w` (generated programs on word-listed / word-addressed targets): Driver/C19W.lean
 mode `c19r` render: `<widthRadix> <numRadix> <depth> <line> <pc> <codehex> <srchex>` ↦ model lines (hex)
 -/
 namespace Driver.C19
@@ -314,6 +315,67 @@ def handle (line : String) : String := Id.run do
     return s!"pfile=ok lines={q.lst.size} other={other} groups={grps.size} code_groups={code.size} events={cevs.size} listed={listed} hidden={hidden} total={total} spec_list={showIdx specBad} diag16={showIdx diagBad} complete={if complete then "ok" else "fail"} corr_list={showIdx corrBad} map_entries={mf.lines.length} map_bad_lines={mf.bad} spec_map={showIdx mapBad} map_all={showIdx mapMiss} corr_map={if corrMap then "ok" else "ne"} {symS}" ++
       (if sample = "" then "" else s!" model_line={sample}")
 
+/-! ## word-listed / word-addressed targets (helpers shared with Driver/C19W.lean) -/
+
+/-- all bytes the code file holds, keyed by (segment, granularity of the record, byte position =
+start * granularity + offset) -/
+def cellMapW (recs : List Rec) : Std.HashMap (Nat × Nat × Nat) (List UInt8) := Id.run do
+  let mut m : Std.HashMap (Nat × Nat × Nat) (List UInt8) := {}
+  for r in recs do
+    let g := r.gran.toNat
+    let mut a := r.start * g
+    for b in r.data do
+      m := m.insert (r.seg.toNat, g, a) (b :: (m.getD (r.seg.toNat, g, a) []))
+      a := a + 1
+  return m
+
+/-- the code file holds the bytes `bs` from address `addr` (in units of `g` bytes) of segment `seg` on -/
+def holdsW (m : Std.HashMap (Nat × Nat × Nat) (List UInt8)) (seg g addr : Nat) (bs : List Nat) : Bool := Id.run do
+  let mut a := addr * g
+  for b in bs do
+    if !((m.getD (seg, g, a) []).any (fun x => x.toNat = b)) then return false
+    a := a + 1
+  return true
+
+def fetchW (m : Std.HashMap (Nat × Nat × Nat) (List UInt8)) (seg g addr n : Nat) : Option (List UInt8) :=
+  (List.range n).mapM (fun i => (m.getD (seg, g, addr * g + i) []).getLast?)
+
+/-- largest unit size listed in a group (1, 2 or 4; 0 if nothing is listed) -/
+def maxUnit (p : List Char → Option WLine) (lines : List (List Char)) : Nat :=
+  lines.foldl (fun a l => match p l with
+    | some ll => ll.units.foldl (fun b u => max b u.1) a
+    | none => a) 0
+
+/-- Golden corpus, one word-listed line group: the documented reading with every address unit size
+`g` and byte order for which the code file has records.  Result: `some (viaMap, addrEq, g, lg, be)`
+when the code file holds the listed bytes: at a MAP address of the line that equals the listed
+address, else at the listed address in some segment, else at another MAP address of the line (PHASE). -/
+def corpusWide (r : Nat) (cm : Std.HashMap (Nat × Nat × Nat) (List UInt8)) (segGrans : List (Nat × Nat))
+    (exact : Nat → List MapLine) (cands : List MapLine) (lines : List (List Char)) :
+    Option (Bool × Bool × Nat × Nat × String) := Id.run do
+  let p := parseLineW r
+  let lg := maxUnit p lines
+  let mut readings : Array (Nat × Bool × Nat × List Nat) := #[]
+  for be in [false, true] do
+    for g in [1, 2, 4] do
+      if segGrans.any (fun sg => sg.2 = g) then
+        match parseListingWWith p g be lines with
+        | some (a, bs) => readings := readings.push (g, be, a, bs)
+        | none => pure ()
+  let besOf (g : Nat) (be : Bool) (bs : List Nat) : String :=
+    if readings.any (fun x => x.1 = g ∧ x.2.1 = !be ∧ x.2.2.2 == bs) then "any" else if be then "be" else "le"
+  let okAt (ml : MapLine) (g : Nat) (bs : List Nat) : Bool :=
+    match segNo ml.seg with
+    | some s => segGrans.contains (s, g) ∧ holdsW cm s g ml.addr bs
+    | none => false
+  for (g, be, a, bs) in readings do
+    if (exact a).any (fun ml => okAt ml g bs) then return some (true, true, g, lg, besOf g be bs)
+  for (g, be, a, bs) in readings do
+    if segGrans.any (fun sg => sg.2 = g ∧ holdsW cm sg.1 g a bs) then return some (false, true, g, lg, besOf g be bs)
+  for (g, be, _, bs) in readings do
+    if cands.any (fun ml => okAt ml g bs) then return some (true, false, g, lg, besOf g be bs)
+  return none
+
 /-- golden corpus: no generator knowledge.  A code-bearing group (line L, address A, bytes B) is
 accepted if the code file holds B at a MAP address given for line L in the MAP's segment, or at A
 in some segment. -/
@@ -330,8 +392,10 @@ def handleCorpus (line : String) : String := Id.run do
     let (grps, other) := groupLines (parseLine q.radix) q.lst
     let mf := parseMap q.map.toList
     let mut byLine : Std.HashMap Nat (List MapLine) := {}
+    let mut byLineAddr : Std.HashMap (Nat × Nat) (List MapLine) := {}
     for ml in mf.lines do
       byLine := byLine.insert ml.line (ml :: byLine.getD ml.line [])
+      byLineAddr := byLineAddr.insert (ml.line, ml.addr) (ml :: byLineAddr.getD (ml.line, ml.addr) [])
     let mut viaMap := 0
     let mut direct := 0
     let mut nocode := 0
@@ -341,14 +405,38 @@ def handleCorpus (line : String) : String := Id.run do
     let mut bad : Array Nat := #[]
     let mut retracted := 0
     let mut addrNe : Array Nat := #[]
+    let cmW := cellMapW recs
+    let segGrans := (recs.map (fun r => (r.seg.toNat, r.gran.toNat))).eraseDups
+    let mut wdist : Std.HashMap String Nat := {}
+    let mut wbytes := 0
     for gi in [0:grps.size] do
       let g := grps[gi]!
       -- documented (processor-specific hints, Z380 DDIR): a line marked `R` replaces the code of the
       -- line before it, which therefore is not in the code file
-      if (match grps[gi+1]? with | some nx => nx.first.retracted | none => false) then
+      -- (lines without code may stand between the two: the next line that is retracted or lists code decides)
+      let noCode (x : Grp) : Bool := x.first.groups.isEmpty && !wideField q.radix w (x.lines.headD [])
+      let nxt := (List.range 64).foldl (fun n _ => match grps[n]? with
+        | some nx => if !nx.first.retracted && noCode nx then n + 1 else n
+        | none => n) (gi + 1)
+      if (match grps[nxt]? with | some nx => nx.first.retracted | none => false) && !noCode g then
         retracted := retracted + 1
       else if g.first.groups.isEmpty then
-        if wideField q.radix w (g.lines.headD []) then wide := wide + 1 else nocode := nocode + 1
+        if wideField q.radix w (g.lines.headD []) then
+          -- word-listed line: joined with the code file by the general documented reading
+          wide := wide + 1
+          if g.lines.length > 1 then multi := multi + 1
+          let ln := g.first.line.getD 0
+          match corpusWide q.radix cmW segGrans (fun a => byLineAddr.getD (ln, a) []) (byLine.getD ln []) g.lines with
+          | some (vm, addrEq, gg, lg, bes) =>
+            if vm then
+              viaMap := viaMap + 1
+              if !addrEq then addrNe := addrNe.push g.idx
+            else direct := direct + 1
+            let key := s!"{gg}:{lg}:{bes}"
+            wdist := wdist.insert key (wdist.getD key 0 + 1)
+            wbytes := wbytes + (match parseListingWWith (parseLineW q.radix) gg (bes = "be") g.lines with | some (_, bs) => bs.length | none => 0)
+          | none => bad := bad.push g.idx
+        else nocode := nocode + 1
       else
         match parseListing q.radix g.lines with
         | some (a, bs) =>
@@ -384,7 +472,9 @@ def handleCorpus (line : String) : String := Id.run do
             if x ≠ y then diff := diff.push (str s.name)
           | _, _ => pure ()
         | none => pure ()
-    return s!"pfile=ok lines={q.lst.size} other={other} groups={grps.size} nocode={nocode} wide={wide} via_map={viaMap} direct={direct} bytes={bytes} multi={multi} retracted={retracted} addr_ne={addrNe.size} addr_ne_idx={showIdx addrNe} list_bad={showIdx bad} map_entries={mf.lines.length} map_bad_lines={mf.bad} sym_compared={cmpN} sym_diff={if diff.isEmpty then "ok" else "fail:" ++ ",".intercalate (diff.toList.take 6)}"
+    let wd := wdist.toList.map (fun kv => s!"{kv.1}={kv.2}")
+    let wds := if wd.isEmpty then "-" else ",".intercalate wd
+    return s!"pfile=ok lines={q.lst.size} other={other} groups={grps.size} nocode={nocode} wide={wide} wide_bytes={wbytes} wdist={wds} via_map={viaMap} direct={direct} bytes={bytes} multi={multi} retracted={retracted} addr_ne={addrNe.size} addr_ne_idx={showIdx addrNe} list_bad={showIdx bad} map_entries={mf.lines.length} map_bad_lines={mf.bad} sym_compared={cmpN} sym_diff={if diff.isEmpty then "ok" else "fail:" ++ ",".intercalate (diff.toList.take 6)}"
 
 /-- `c19r`: render one line with the model -/
 def handleRender (line : String) : String :=
